@@ -581,6 +581,13 @@ def r5(ctx):
         tags_of_record = any(isinstance(x, ast.Attribute) and x.attr == 'tags' and isinstance(x.value, ast.Name) and x.value.id in lv for e_ in exprs for x in ast.walk(e_))
         okp = isinstance(p, ast.JoinedStr) and src(p).rstrip("'\"").endswith('.gz') and {'bi', 'MX'} <= consts and tags_of_record and bool(names_in(p) & lv)
         ctx.emit('C19-R5', ok and okp, FQHANDLE, c, f'per-cell write: path {src(p)} method={src(meth[0].value) if meth else None}', key='sc-write-gzip')
+    # the cell a record is filed under is its own tag value - 0 and '' are values: a tag read is not replaced by the fall-back name because it is falsy
+    falls = [b for b in ast.walk(f) if isinstance(b, ast.BoolOp) and isinstance(b.op, ast.Or) and isinstance(b.values[0], ast.Call) and isinstance(b.values[0].func, ast.Attribute)
+             and b.values[0].func.attr in ('get', 'get_tag') and 'tags' in src(b.values[0].func.value)] + \
+            [i_ for i_ in ast.walk(f) if isinstance(i_, ast.IfExp) and isinstance(i_.test, ast.Call) and isinstance(i_.test.func, ast.Attribute) and i_.test.func.attr == 'get' and 'tags' in src(i_.test.func.value)]
+    ctx.emit('C19-R5', not falls, FQHANDLE, falls[0] if falls else f, 'the cell name is built from the tag values as they are (a missing tag, not a falsy one, gets the fall-back name)' if not falls else
+             f'`{src(falls[0])[:70]}` replaces a falsy tag value (cell index 0, an empty string) by the fall-back name: the records of that cell are written to the file of the unassigned reads',
+             key='cell-name-from-tag-value', witness={'tag value': 0, 'file': 'no_cell_id'} if falls else None, what='FastqHandle.write: a falsy tag value is filed under the fall-back cell', nontrivial=False)
     # bamSplitByTag and others: informational count of HandleLimiter users
     g = ctx.fn(FQHANDLE, 'FastqHandle.close')
     ok = any(isinstance(n, ast.Call) and src(n.func) == 'self.handles.close' for n in walk_no_nested(g))
